@@ -1159,8 +1159,9 @@ func c04R4One(c *an.Check, fn *ssa.Function) (c04Shape c04WindowShape) {
 	c04Shape.ok = true
 	wantH := fmt.Sprintf("param#%d", c04Shape.heightIdx)
 	nSucc := 0
-	for _, r := range an.Returns(fn) {
-		switch c04ErrReturnKind(w, r) {
+	for _, rc := range c04RetCases(w, fn) {
+		r := rc.Ret
+		switch rc.Kind {
 		case "err":
 			continue
 		case "?":
@@ -1168,7 +1169,7 @@ func c04R4One(c *an.Check, fn *ssa.Function) (c04Shape c04WindowShape) {
 			continue
 		}
 		nSucc++
-		facts := c04FactsDominatingBlock(w, r.Block())
+		facts := rc.Facts
 		desc := an.DescribeFacts(facts)
 		// (a) anchor set
 		a := an.AnyFact(facts, func(f an.Fact) bool { return an.AtomIs(f, "field:SwapData.StartingBlockHeightSet", true) })
@@ -1664,8 +1665,9 @@ func c04R5Fn(c *an.Check, fn *ssa.Function) c04InvShape {
 	hT := fmt.Sprintf("param#%d", cltvIdx)
 	limT := fmt.Sprintf("param#%d>%s.InvoiceFinalCLTV", polIdx, c04X.polName)
 	nSucc := 0
-	for _, r := range an.Returns(fn) {
-		switch c04ErrReturnKind(w, r) {
+	for _, rc := range c04RetCases(w, fn) {
+		r := rc.Ret
+		switch rc.Kind {
 		case "err":
 			continue
 		case "?":
@@ -1673,7 +1675,7 @@ func c04R5Fn(c *an.Check, fn *ssa.Function) c04InvShape {
 			continue
 		}
 		nSucc++
-		facts := c04FactsDominatingBlock(w, r.Block())
+		facts := rc.Facts
 		nonNeg := an.AnyFact(facts, func(f an.Fact) bool { return c04Implies(f, map[string]int64{hT: 1}, 0, ">=") })
 		upper, upperUnsigned, mentions := false, false, false
 		for _, f := range facts {
@@ -2309,4 +2311,71 @@ func c04PhiAlternatives(w *an.World, v ssa.Value, at *ssa.BasicBlock, limitTerm 
 		out = append(out, c04Alt{v: e, limited: l, unlimited: u})
 	}
 	return out
+}
+
+// c04RetCase is one way a predicate function can hand back its error result:
+// a return instruction, or — for the single-return shape `var err error; if …
+// { err = … }; return err` — one incoming edge of the returned phi. Facts are
+// the facts that hold on that way (dominating the predecessor, the edge's own
+// fact, and whatever dominates the return).
+type c04RetCase struct {
+	Ret   *ssa.Return
+	Kind  string // "nil", "err", "?"
+	Facts []an.Fact
+}
+
+func c04RetCases(w *an.World, fn *ssa.Function) []c04RetCase {
+	var out []c04RetCase
+	all := c04Facts(w, fn)
+	var expand func(r *ssa.Return, v ssa.Value, facts []an.Fact, depth int)
+	expand = func(r *ssa.Return, v ssa.Value, facts []an.Fact, depth int) {
+		phi, ok := v.(*ssa.Phi)
+		if !ok || depth > 3 {
+			kind := "?"
+			switch {
+			case an.IsNilConst(v):
+				kind = "nil"
+			case c04FreshErr(w, v):
+				kind = "err"
+			}
+			out = append(out, c04RetCase{Ret: r, Kind: kind, Facts: facts})
+			return
+		}
+		for i, e := range phi.Edges {
+			pred := phi.Block().Preds[i]
+			fs := append([]an.Fact{}, facts...)
+			fs = append(fs, c04FactsDominatingBlock(w, pred)...)
+			for _, f := range all {
+				if f.Edge.From == pred && f.Edge.To() == phi.Block() {
+					fs = append(fs, f)
+				}
+			}
+			expand(r, e, fs, depth+1)
+		}
+	}
+	for _, r := range an.Returns(fn) {
+		if len(r.Results) > 0 {
+			v := r.Results[len(r.Results)-1]
+			if _, ok := v.(*ssa.Phi); ok && an.IsErrorType(v.Type()) {
+				expand(r, v, c04FactsDominatingBlock(w, r.Block()), 0)
+				continue
+			}
+		}
+		out = append(out, c04RetCase{Ret: r, Kind: c04ErrReturnKind(w, r), Facts: c04FactsDominatingBlock(w, r.Block())})
+	}
+	return out
+}
+
+// c04FreshErr: the value is an error constructed on the spot.
+func c04FreshErr(w *an.World, v ssa.Value) bool {
+	if _, ok := v.(*ssa.MakeInterface); ok {
+		return true
+	}
+	if call := c04CallOf(v); call != nil {
+		switch w.Info(call).Name {
+		case "func:fmt.Errorf", "func:errors.New":
+			return true
+		}
+	}
+	return false
 }
